@@ -556,6 +556,41 @@ def check(ctx):
                 ctx.violation("cmp-forall:" + txt, txt, "1 (the relation holds at every endpoint combination, hence everywhere)", "0", HOW % txt)
         add_case(req, txt, res, shape)
 
+    def case_cmp_chain():
+        """`x op1 I op2 y` and the other placements of an interval in a double comparison: on the reviewed tree Ka REJECTS
+        them (no signature), and a rejection is no claim — but wherever such a chain is answered, the answer is 1 exactly
+        when both relations hold for all points (the property's clause on comparisons, as written)."""
+        a, b, shape = gen_interval(rng)
+        I = operand(a, b)
+        if I is None:
+            return
+        (r1, s1), (r2, s2) = rng.choice([(x, y) for x in RELS for y in RELS if x[0][0] == y[0][0]])
+        def side():
+            if rng.random() < 0.3:
+                c, d, _ = gen_interval(rng)
+                J = operand(c, d)
+                if J is not None:
+                    return itext(c, d), (J.a, J.b)
+            x = scalar_near(I)
+            v = realval(x)
+            return x.text, (v, v)
+        place = rng.choice(["mid", "mid", "mid", "left", "right"])
+        L, R = side(), side()
+        me = (itext(a, b), (I.a, I.b))
+        ops3 = {"mid": (L, me, R), "left": (me, L, R), "right": (L, R, me)}[place]
+        txt = "%s %s %s %s %s" % (ops3[0][0], s1, ops3[1][0], s2, ops3[2][0])
+        if not fresh(txt):
+            return
+        res = real.value(txt)
+        ctx.count(txt, bucket="cmp_chain/%s/%s" % (place, "answered" if res[0] == "ok" else "rejected"))
+        if res[0] != "ok":
+            return
+        want = int(all(holds(r1, u, v) for u in ops3[0][1] for v in ops3[1][1]) and all(holds(r2, u, v) for u in ops3[1][1] for v in ops3[2][1]))
+        if isinstance(res[1], bool) or res[1] not in (0, 1) or not isinstance(res[1], int):
+            ctx.violation("cmp-value:" + txt, txt, "0 or 1", canon_result(real, res), HOW % txt)
+        elif res[1] != want:
+            ctx.violation("cmp-forall:" + txt, txt, "%d (both relations at every combination of end points)" % want, str(res[1]), HOW % txt)
+
     def case_in():
         a, b, shape = gen_interval(rng)
         I = operand(a, b)
@@ -693,7 +728,7 @@ def check(ctx):
                 ctx.violation("pm-bounds:" + txt, txt, "[x - |y|, x + |y|]", str(J), HOW % txt)
         add_case("%s %s %s" % (form, C(x), C(y)), txt, res, "pm")
 
-    kinds = [(case_binop, 26), (case_pow, 18), (case_unary, 14), (case_log, 10), (case_cmp, 16),
+    kinds = [(case_binop, 26), (case_pow, 18), (case_unary, 14), (case_log, 10), (case_cmp, 16), (case_cmp_chain, 6),
              (case_in, 5), (case_eq, 5), (case_eq_scalar, 3), (case_near_reversed, 2), (case_pow_twins, 2), (case_sqrt_bigsquare, 1), (case_minmax, 6), (case_pm, 4)]
     fns = [f for f, w in kinds for _ in range(w)]
 
